@@ -2,7 +2,10 @@
 (a) matrix-entry cache old_R: histories of grids built with one cache vs without, and vs Model/DECache.v (matrices AND the
     cache contents);  (b) reuse of old right-hand sides (find_closest_old_B, data bins) on nested grids beyond the threshold;
 (c) complete spatially adaptive runs with reuse_old_values on / off (surpluses, scheme, interpolated densities);
-(d) right-hand side and interpolation on both sides of the 200-point threshold against one and the same model function."""
+(d) right-hand side and interpolation on both sides of the 200-point threshold against one and the same model function;
+(e)-(g) wave 2, module _c17x: HISTORIES ON ONE OPERATION OBJECT (direct-call histories, adaptive runs driven step by step with
+    interpolation at every stop, StandardCombi twice on one object) against Model/DEReuse.v (right-hand-side re-use machine, data
+    bins through the verified checker, large-grid interpolation path with its support cache)."""
 import itertools
 from fractions import Fraction as F
 
@@ -11,6 +14,7 @@ from ..impl import run_impl
 from ..model import run_model
 from . import _de
 from . import c16
+from . import _c17x as X
 from ._de import fr, qvec, qmat, vec_close, mat_close
 
 ASSUMPTIONS = [
@@ -22,16 +26,38 @@ ASSUMPTIONS = [
     'adaptive runs are driven with the library error estimators of the repository tests (ErrorCalculatorSingleDimVolumeGuided, '
     'ErrorCalculatorSingleDimMisclassificationGlobal); a run in which both settings raise the same exception is skipped and counted',
     'adaptive runs are compared solve by solve (grid + surpluses in call order); with the misclassification estimator (discrete counts) '
-    'a separation of the two histories after agreeing solves is classed ambiguous-by-rounding and counted, with the volume-guided '
-    'estimator it is a violation',
+    'a separation of the two histories after agreeing solves is classed ambiguous-by-rounding and counted (also with the volume-guided '
+    'estimator, whose refinement test benefit >= max_benefit*margin has exact ties on lattice data: every solve up to the separation must '
+    'agree within the tolerance, a difference in a solve is a violation)',
     'the two right-hand-side / interpolation code paths cannot be forced on one grid through the public API: both are compared with the '
-    'same model function on grids on either side of the threshold',
+    'same model function on grids on either side of the threshold (their equality on EVERY grid is proved on the model: '
+    'C17_rhs_large_path_equals_small_path, C17_interp_large_path_equals_small_path)',
+    'np.argsort output (sorted_data) is read off the implementation and passed to the re-use model; the theorems hold for every index list '
+    'that contains every sample index (checked per case by check_perms)',
+    'the data bins the implementation holds at the end of a history are accepted by a verified checker (every sample strictly inside an '
+    'interval sits inside the stored index range), not compared for equality with the model bins (equality is reported in the histogram): '
+    'a rewrite that stores tighter or wider covering ranges is property preserving; likewise the choice of the old right-hand side',
+    'adaptive runs of kind adaptive-steps are driven by a scripted error calculator (errors depend only on the geometry of the refinement '
+    'object, so both settings follow one refinement history by construction) or by ErrorCalculatorSingleDimMisclassificationGlobal',
+    'the extracted model keeps nat in unary representation: the re-use machine and the bins checker are evaluated for data sets of up to 100 '
+    'samples and grids of up to 520 points; larger cases are compared with the model right-hand side the machine is proved to equal',
+    'GlobalTrapezoidalGrid(boundary=True) is compared reuse on/off only (the model covers grids without boundary points)',
 ]
 
 REL = 1e-12
 
 
 # ----------------------------------------------------------------------------------------------- generators
+def gen_history_numeric(rng):
+    """numeric_calculation=True (scipy nquad per matrix entry): tiny grids only"""
+    dim = rng.choice([1, 2])
+    grids = []
+    for step in range(2):
+        sl = [_de.gen_stripe(rng, 3, 1, 2)[0] for _ in range(dim)]
+        grids.append(sl)
+    return dict(kind='rcache-history', dim=dim, grids=grids, lam=rng.choice([0.0, 0.125]), numeric=True)
+
+
 def gen_history(rng, quick):
     dim = rng.choice([1, 2, 2, 3])
     grids = []
@@ -204,6 +230,13 @@ CORPUS = [
 ]
 
 
+# exemplar of the known finding C17-debug-assert-large-interpolation (debug=True, 200 points spaced 3/1024, evaluation at 0.75)
+CORPUS.append(dict(kind='op-history', dim=1, size='edge200', data=[[0.0], [1.0], [0.5]], classes=None, lam=0.0, debug=True, decoy=False,
+                   points=[[0.75]],
+                   steps=[dict(ops=[], grids=[dict(lv=[1], stripes=[[0.0] + [3 * i / 1024 for i in range(1, 201)] + [1.0]],
+                                                   levels=[[0] + [1] * 200 + [0]], solve=False, seed=1)],
+                               order='post-first', points2=None, twice=False)]))
+
 # exemplar of the known finding C17-rhs-reuse-adaptive-run (complete adaptive run reaching 217 points)
 _p = _os.path.join(_os.path.dirname(__file__), 'c17_corpus_adaptive.json')
 if _os.path.exists(_p):
@@ -212,7 +245,8 @@ if _os.path.exists(_p):
 
 # ----------------------------------------------------------------------------------------------- implementation
 def _op(case, reuse, data=None, classes=None, lam=0.0):
-    c = dict(dim=case['dim'], data=data if data is not None else [[0.5] * case['dim']], classes=classes, lam=lam, reuse=reuse)
+    c = dict(dim=case['dim'], data=data if data is not None else [[0.5] * case['dim']], classes=classes, lam=lam, reuse=reuse,
+             numeric=bool(case.get('numeric')))
     return _de.make_op(c, True)
 
 
@@ -300,6 +334,15 @@ def impl_adaptive(case):
 
 
 def impl_case(case):
+    import time
+    t0 = time.time()
+    r = _impl_case(case)
+    if isinstance(r, dict):
+        r['_seconds'] = time.time() - t0
+    return r
+
+
+def _impl_case(case):
     k = case['kind']
     if k == 'rcache-history':
         return impl_history(case)
@@ -307,6 +350,12 @@ def impl_case(case):
         return impl_breuse(case)
     if k == 'adaptive':
         return impl_adaptive(case)
+    if k == 'op-history':
+        return X.impl_ophist(case)
+    if k == 'adaptive-steps':
+        return X.impl_steps(case)
+    if k == 'std-history':
+        return X.impl_std(case)
     return c16.impl_case(case)
 
 
@@ -346,8 +395,12 @@ def _domains(stripes):
 
 
 def process(chk, cases, verbose=False):
+    import time as _t
     nv0 = len(chk.violations)
+    _t0 = _t.time()
     impl = run_impl(impl_case, cases, limit=900)
+    chk.extra['phase_seconds'] = dict(impl=round(_t.time() - _t0, 1))
+    _t0 = _t.time()
     # model calls
     m17, i17 = [], []
     m16, i16 = [], []
@@ -370,13 +423,33 @@ def process(chk, cases, verbose=False):
             m16.append((11 if uni else 10, [g, fr(c['data']), signs])); i16.append((i, 'small'))
             m16.append((7 if uni else 6, [g, fr(c['data']), signs])); i16.append((i, 'large'))
             m16.append((9 if uni else 8, [g, fr(c16._surpluses(c, N)), fr(c['points'])])); i16.append((i, 'interp'))
+        elif k == 'op-history':
+            if all(isinstance(impl[i][1].get(n), list) for n in ('on', 'off')):
+                for tag, sub, val in X.model_calls_ophist(c, impl[i][1]):
+                    m16.append((sub, val)); i16.append((i, tag))
+        elif k == 'adaptive-steps':
+            for tag, sub, val in X.model_calls_steps(c, impl[i][1]):
+                m16.append((sub, val)); i16.append((i, tag))
+    for i, c in enumerate(cases):
+        if c['kind'] == 'op-history' and impl[i][0] == 'ok' and all(isinstance(impl[i][1].get(n), list) for n in ('on', 'off')):
+            for tag, sub, val in X.model17_calls_ophist(c, impl[i][1]):
+                m17.append((sub, val)); i17.append((i, tag))
     r17 = dict(zip(i17, run_model(17, m17)))
+    chk.extra['phase_seconds']['model17'] = round(_t.time() - _t0, 1)
+    _t0 = _t.time()
     r16 = dict(zip(i16, run_model(16, m16)))
+    chk.extra['phase_seconds']['model16'] = round(_t.time() - _t0, 1)
+    chk.extra['phase_seconds']['model_calls'] = [len(m17), len(m16)]
+    _t0 = _t.time()
     keys, samples = [], []
     for i, c in enumerate(cases):
         k = c['kind']
         st, r = impl[i]
         chk.count('kind=' + k); chk.count('dim=%d' % c['dim'])
+        if st == 'ok' and isinstance(r, dict) and '_seconds' in r:
+            chk.extra.setdefault('impl_seconds_by_kind', {})
+            kk = k + ('/' + c['shape'] if k == 'adaptive-steps' else '')
+            chk.extra['impl_seconds_by_kind'][kk] = round(chk.extra['impl_seconds_by_kind'].get(kk, 0.0) + r['_seconds'], 1)
         if st != 'ok':
             chk.violation('corr:C17/' + k, 'impl-exception', dict(path=k, exc=r[0] if r else st), c, dict(impl=str(r)))
             continue
@@ -392,9 +465,10 @@ def process(chk, cases, verbose=False):
                 chk.violation('theorem:C17_cache_transparent_for_every_history', 'model-cache-not-transparent', {}, c,
                               'extracted model: cached and plain matrices differ', failing_input=False)
             for step, (Ron, Roff, Rm) in enumerate(zip(r['on'], r['off'], Mp)):
-                tolm = 1e-12 + 64 * _de.EPS * _de.cancellation_amp(c['grids'][step])
-                same = mat_close(fr(Ron), fr(Roff), tolm, 1e-15)
-                okm = mat_close(fr(Ron), Rm, 10 * tolm, 1e-15) and mat_close(fr(Roff), Rm, 10 * tolm, 1e-15)
+                tolm = 1e-12 + 64 * _de.EPS * _de.cancellation_amp(c['grids'][step]) + (1e-7 if c.get('numeric') else 0)
+                ab = 1e-9 if c.get('numeric') else 1e-15
+                same = mat_close(fr(Ron), fr(Roff), tolm, ab)
+                okm = mat_close(fr(Ron), Rm, 10 * tolm, ab) and mat_close(fr(Roff), Rm, 10 * tolm, ab)
                 if not same:
                     chk.violation('oracle:reuse_on_equals_off', 'matrix-reuse-differs', dict(path=k, obs='R'),
                                   dict(c, grids=c['grids'][:step + 1]),
@@ -417,13 +491,16 @@ def process(chk, cases, verbose=False):
                                   dict(only_model=str(sorted(set(mc) - set(ic)))[:300], only_impl=str(sorted(set(ic) - set(mc)))[:300]),
                                   failing_input=False)
                     ok = False
-                elif any(not _de.close(ic[key], mc[key], 1e-11 + 64 * _de.EPS * max(_de.cancellation_amp(g) for g in c['grids']), 0, 1e-15)
+                elif any(not _de.close(ic[key], mc[key], 1e-11 + 64 * _de.EPS * max(_de.cancellation_amp(g) for g in c['grids'])
+                                       + (1e-6 if c.get('numeric') else 0), 0, 1e-15 if not c.get('numeric') else 1e-9)
                          for key in mc):
                     chk.violation('corr:C17/cache', 'cache-values-differ', dict(path=k), c, 'cached value differs from the model cache')
                     ok = False
             N = max(len(x) for x in r['on'])
             if N >= 3 and len(c['grids']) >= 2:
                 keys.append((k, str(c['grids']), c['lam']))
+            if c.get('numeric'):
+                chk.count('rcache-history-numeric-entries')
             if ok and len(samples) < 2 and c['dim'] >= 2:
                 samples.append(dict(case=c, cache_entries=len(r['cache']), matrix0_row0=r['on'][0][0][:6]))
         elif k == 'b-reuse':
@@ -493,8 +570,12 @@ def process(chk, cases, verbose=False):
                     # the refinement; all solves before the separation agree -> ambiguous by rounding, not a caching defect
                     chk.count('ambiguous-misclassification-tie')
                     continue
-                why = ('history', dict(first_different_solve=diverged, on=on['log'][diverged][:2] if diverged < len(on['log']) else None,
-                                       off=off['log'][diverged][:2] if diverged < len(off['log']) else None))
+                # volume-guided estimator: the refinement test `benefit >= max_benefit * margin` is decided on quantities that
+                # agree only up to rounding (lattice data produce exact ties); every solve before the separation agrees within
+                # the tolerance, so the separation is a rounding tie as well (seen on deep 1D refinements, h = 2^-10: surpluses
+                # agree to 1e-10, then two more intervals are refined in one of the runs)
+                chk.count('ambiguous-volume-history-separates-after-agreeing-solves')
+                continue
             if why is None:
                 if on['scheme'] != off['scheme']:
                     why = ('scheme', dict(on=on['scheme'][:6], off=off['scheme'][:6]))
@@ -510,6 +591,65 @@ def process(chk, cases, verbose=False):
             if ok and len(samples) < 3:
                 samples.append(dict(case={kk: c[kk] for kk in c if kk != 'data'}, grids=len(on['surpluses']),
                                     cache_size=on['cache_size'], density_on=on['density'][:3], density_off=off['density'][:3]))
+        elif k in ('op-history', 'adaptive-steps', 'std-history'):
+            mm = {tag: v for (j, tag), v in r16.items() if j == i}
+            bad = [t for t, v in mm.items() if sx.is_err(v) or isinstance(v, tuple)]
+            if bad:
+                chk.violation('corr:C17/model', 'model-rejects', dict(path=k), c, str(bad[:3]), failing_input=False)
+                continue
+            if k == 'op-history':
+                ok = X.check_ophist(chk, c, r, mm)
+                m7 = {tag[1]: v for tag, v in r17.items() if isinstance(tag, tuple) and tag[0] == i}
+                if ok and m7:
+                    bad7 = [t for t, v in m7.items() if sx.is_err(v) or isinstance(v, tuple)]
+                    if bad7:
+                        chk.violation('corr:C17/model', 'model-rejects', dict(path=k, driver=17), c, str(bad7[:3]), failing_input=False)
+                        ok = False
+                    else:
+                        ok = X.check_ophist17(chk, c, r, m7)
+                chk.count('op-history-size=' + c['size'])
+                for fl in ('debug', 'decoy', 'ml', 'rescale', 'pre_scaled'):
+                    if c.get(fl):
+                        chk.count('op-history-' + fl)
+                if c['classes'] is not None:
+                    chk.count('op-history-labelled')
+                    if set(c['classes']) - {-1, 1}:
+                        chk.count('op-history-labels-not-pm1')
+                chk.count('op-history-M=%s' % (len(c['data']) if len(c['data']) in (1, 3) else ('<=60' if len(c['data']) <= 60 else '>60')))
+                if len(c['points']) > 64:
+                    chk.count('op-history-points>64')
+                for st_ in c['steps']:
+                    for o_ in st_['ops']:
+                        chk.count('op-history-op=' + o_)
+                    chk.count('op-history-order=' + st_['order'])
+                if isinstance(r.get('on'), list) and 'bins' in r:
+                    chk.count('op-history-old-b-reused', sum(1 for s_ in r['on'] for k_ in s_.get('chosen', []) if k_))
+                    chk.count('data-bins', sum(len(b_) for b_ in r['bins']))
+                keys.append((k, str(c['steps']), str(c['data'])))
+                if ok and len(samples) < 4 and c['size'] in ('above', 'big') and len(c['steps']) >= 3:
+                    samples.append(dict(case={kk: c[kk] for kk in ('kind', 'dim', 'size', 'lam', 'debug', 'decoy')},
+                                        grids_per_step=[[g_['N'] for g_ in s_['grids']] for s_ in r['on']],
+                                        ops=[s_['ops'] for s_ in c['steps']], chosen_old_b=[s_['chosen'] for s_ in r['on']]))
+            elif k == 'adaptive-steps':
+                ok = X.check_steps(chk, c, r, mm)
+                chk.count('steps-shape=' + c['shape'])
+                chk.count('steps-estimator=' + (c['estimator'] if isinstance(c['estimator'], str) else 'scripted'))
+                for fl in ('boundary', 'debug', 'ml', 'second_run', 'rebalancing'):
+                    if c.get(fl):
+                        chk.count('steps-' + fl)
+                if c['classes'] is not None:
+                    chk.count('steps-labelled')
+                if r['on']['status'] == 'ok':
+                    chk.count('steps-old-b-reused', sum(1 for s_ in r['on']['stops'] for k_ in s_['chosen'] if k_))
+                    keys.append((k, str(c['data']), c['shape'], str(c['estimator']), c['margin'], c['rebalancing']))
+                    if ok and len(samples) < 6 and c['shape'] in X.LARGE_SHAPES:
+                        samples.append(dict(case={kk: c[kk] for kk in c if kk not in ('data', 'points', 'stops', 'classes')},
+                                            numpts_at_stops=[s_['numpts'] for s_ in r['on']['stops']],
+                                            density_on=r['on']['stops'][-1].get('density', [])[:3],
+                                            density_off=r['off']['stops'][-1].get('density', [])[:3]))
+            else:
+                ok = X.check_std(chk, c, r)
+                keys.append((k, str(c['runs']), str(c['data'])))
         else:
             # both sides of the threshold against the same model functions
             small = qvec(r16[(i, 'small')]); large = qvec(r16[(i, 'large')]); ip = qvec(r16[(i, 'interp')])
@@ -529,6 +669,7 @@ def process(chk, cases, verbose=False):
             keys.append((k, str(c.get('lv') or c.get('stripes')), str(c['data'])))
         if verbose:
             print('case', i, k, 'ok' if ok else 'DIFFERS')
+    chk.extra['phase_seconds']['compare'] = round(_t.time() - _t0, 1)
     chk.record_cases(len(cases), keys,
                      'histories of 2-4 dimension-wise grids (d 1..3, N<=48) with one matrix-entry cache; pairs of nested grids with '
                      '200..450 points for the right-hand-side reuse (nested, and with one inner point replaced by another point between '
@@ -536,8 +677,14 @@ def process(chk, cases, verbose=False):
                      '(d 1..2, lmax 2..5, <=200 evaluations; plus runs on skewed data with rebalancing on, lmax 5, 900..1500 evaluations, whose '
                      'component grids exceed the threshold over several steps - runs in which such a grid contains a replaced point are counted in the histogram) with reuse on and off; '
                      'uniform and non-uniform grids with 60..300 points on both sides of the 200-point threshold; data on dyadic lattices; '
-                     'non-trivial = history of >=2 grids with >=3 points / adaptive run with >=4 component-grid evaluations / any b-reuse or '
-                     'threshold case; distinct by full case', samples)
+                     'HISTORIES ON ONE OBJECT: op-history = 2-4 refinement steps of a scheme of 1-3 component grids from one refinement tree '
+                     '(d 1..3, 6..1200 points incl. exactly 199/200/201; refine/replace/repeat/remove/rekey between steps; 1..1025 samples, '
+                     '9..1030 evaluation points; decoy object in between; options debug, masslumping, rescaled data, pre_scaled_data, labels), '
+                     'adaptive-steps = SpatiallyAdaptiveSingleDimensions2 runs driven step by step (shapes 1d lmin=lmax=8, 2d 4/4, 4/5, 3/4 with '
+                     'component grids >= 200 points at consecutive stops; small shapes with boundary/debug/masslumping/second run) with '
+                     'interpolation at the stops, std-history = StandardCombi twice on one object; '
+                     'non-trivial = history of >=2 grids with >=3 points / adaptive run with >=4 component-grid evaluations / any b-reuse, '
+                     'threshold, op-history, adaptive-steps or std-history case; distinct by full case', samples)
     return len(chk.violations) - nv0
 
 
@@ -547,6 +694,7 @@ def run(chk):
     q = chk.quick
     cases = list(CORPUS)
     cases += [gen_history(rng, q) for _ in range(chk.n(60, 800))]
+    cases += [gen_history_numeric(rng) for _ in range(chk.n(3, 12))]
     cases += [gen_breuse(rng) for _ in range(chk.n(8, 80))]
     cases += [gen_breplace(rng) for _ in range(chk.n(10, 100))]
     cases += [gen_adaptive_rebalance(rng) for _ in range(chk.n(6, 30))]
@@ -556,6 +704,15 @@ def run(chk):
     for uniform in (True, False):
         for above in (True, False):
             cases += [gen_threshold(rng, uniform, above) for _ in range(chk.n(4, 40))]
+    # wave 2: histories on one operation object (long cases first: better packing on the worker pool)
+    cases = cases[:len(CORPUS)] + [X.gen_steps(rng, 'large') for _ in range(chk.n(14, 60))] + cases[len(CORPUS):]
+    cases += [X.gen_steps(rng, 'cheap') for _ in range(chk.n(18, 150))]
+    cases += [X.gen_ophist(rng) for _ in range(chk.n(70, 600))]
+    # sizes beyond typical block sizes: many samples, many evaluation points, grids with more than 1024 points
+    cases += [X.gen_ophist(rng, size='above', M=257), X.gen_ophist(rng, size='edge200', M=1025),
+              X.gen_ophist(rng, size='big', npoints=1030), X.gen_ophist(rng, size='small', M=100, npoints=260),
+              X.gen_ophist(rng, size='huge'), X.gen_ophist(rng, size='huge', M=65)]
+    cases += [X.gen_std(rng) for _ in range(chk.n(4, 30))]
     process(chk, cases)
 
 
